@@ -368,7 +368,7 @@ package cdi
 //@   loop 2 invariant specgen.Config == spec
 //@   loop 3 invariant specgen.Config == spec
 //@   loop 4 invariant specgen.Config == spec
-//@   preserves tags.cncf.io/container-device-interface/specs-go, tags.cncf.io/container-device-interface/pkg/cdi
+//@   preserves tags.cncf.io/container-device-interface/specs-go, tags.cncf.io/container-device-interface/pkg/cdi, basic-data
 //@   frametags C14
 //@   ensures implies(spec == nil, err != nil)
 // C03.Devices: for every device node, in order: RemoveDevice(path), AddDevice(node with the expected values),
@@ -857,19 +857,19 @@ package cdi
 //@                   opiA[j] == old(opiA[j]) && opiB[j] == old(opiB[j]) && opiC[j] == old(opiC[j]) && opiD[j] == old(opiD[j]) && opiE[j] == old(opiE[j]) && opiF[j] == old(opiF[j]) && opiG[j] == old(opiG[j])))
 //@   ghostwrites opn, opk, opsA, opsB, opsC, opiA, opiB, opiC, opiD, opiE, opiF, opiG, opiH
 //@   requires specgen != nil && specgen.Config != nil
-//@   preserves tags.cncf.io/container-device-interface/specs-go, tags.cncf.io/container-device-interface/pkg/cdi
+//@   preserves tags.cncf.io/container-device-interface/specs-go, tags.cncf.io/container-device-interface/pkg/cdi, basic-data
 //@   frametags C14
 //@   ensures specgen.Config == old(specgen.Config)
 
 //@ func (d *Device) ApplyEdits(ociSpec *oci.Spec) (err error)
 //@   ghostwrites opn, opk, opsA, opsB, opsC, opiA, opiB, opiC, opiD, opiE, opiF, opiG, opiH
 //@   requires d != nil && d.Device != nil && NoNilEntries(&d.ContainerEdits)
-//@   preserves tags.cncf.io/container-device-interface/specs-go, tags.cncf.io/container-device-interface/pkg/cdi
+//@   preserves tags.cncf.io/container-device-interface/specs-go, tags.cncf.io/container-device-interface/pkg/cdi, basic-data
 //@   frametags C14
 //@ func (s *Spec) ApplyEdits(ociSpec *oci.Spec) (err error)
 //@   ghostwrites opn, opk, opsA, opsB, opsC, opiA, opiB, opiC, opiD, opiE, opiF, opiG, opiH
 //@   requires s != nil && s.Spec != nil && NoNilEntries(&s.ContainerEdits)
-//@   preserves tags.cncf.io/container-device-interface/specs-go, tags.cncf.io/container-device-interface/pkg/cdi
+//@   preserves tags.cncf.io/container-device-interface/specs-go, tags.cncf.io/container-device-interface/pkg/cdi, basic-data
 //@   frametags C14
 
 // ---------------------------------------------------------------- cache.go lock discipline (C12)
